@@ -136,7 +136,7 @@ pub fn install_panic_hook() {
         };
         // panics raised by the harness itself (not inside the library under test or its
         // dependencies) are bugs of the harness: make them visible
-        if loc.starts_with("src/") {
+        if loc.starts_with("src/") && !msg.starts_with("EXPECTED-PANIC") {
             eprintln!("harness panic at {loc}: {msg}");
         }
         LAST_PANIC.with(|p| *p.borrow_mut() = Some(format!("{loc}: {msg}")));
